@@ -31,6 +31,7 @@ type walker struct {
 	fieldID map[string]int
 	written map[string]bool // fields written by some method (others are immutable after NewVM)
 	selfSync map[string]bool // fields of a sync./atomic. type: their methods synchronise themselves
+	atomic   map[string]bool // ... of a sync/atomic type: Load/Store/... are emitted as AARead/AAWrite
 }
 
 type emitter struct {
@@ -53,7 +54,7 @@ type target struct {
 
 func loadWalker(repo string, tg target) (*walker, error) {
 	w := &walker{fset: token.NewFileSet(), methods: map[string]*ast.FuncDecl{}, isMap: map[string]bool{},
-		fieldID: map[string]int{}, written: map[string]bool{}, selfSync: map[string]bool{}}
+		fieldID: map[string]int{}, written: map[string]bool{}, selfSync: map[string]bool{}, atomic: map[string]bool{}}
 	dir := filepath.Join(repo, tg.dir)
 	ents, err := os.ReadDir(dir)
 	if err != nil {
@@ -82,13 +83,15 @@ func loadWalker(repo string, tg target) (*walker, error) {
 					}
 					for _, fl := range st.Fields.List {
 						_, m := fl.Type.(*ast.MapType)
-						ss := false
+						ss, at := false, false
 						if se, ok := fl.Type.(*ast.SelectorExpr); ok {
 							if pk, ok := se.X.(*ast.Ident); ok && (pk.Name == "sync" || pk.Name == "atomic") {
 								ss = true
+								at = pk.Name == "atomic"
 							}
 						}
 						for _, nm := range fl.Names {
+							w.atomic[nm.Name] = at
 							w.selfSync[nm.Name] = ss
 							w.fieldID[nm.Name] = len(w.fields)
 							w.fields = append(w.fields, nm.Name)
@@ -304,6 +307,15 @@ func (e *emitter) call(c *ast.CallExpr, nested bool) {
 		if f, ok := e.vmField(se.X); ok && e.w.selfSync[f] {
 			for _, a := range c.Args {
 				e.expr(a, nested)
+			}
+			if e.w.atomic[f] {
+				// an atomic access is race free anywhere, but WHERE it happens relative to the lock matters for
+				// check-then-act sequences (a test of the flag that guards an action must sit in the same section)
+				if se.Sel.Name == "Load" {
+					e.emit(fmt.Sprintf("AARead %d", e.w.fieldID[f]))
+				} else {
+					e.emit(fmt.Sprintf("AAWrite %d", e.w.fieldID[f]))
+				}
 			}
 			return
 		}
